@@ -232,6 +232,13 @@ func GenHist(seed uint64, prop, target string) (*Scenario, map[string]int64) {
 	if r.P(80) {
 		n = 15 + r.Intn(26)
 	}
+	for _, b := range sg.sc.Bufs {
+		// a very deep document costs ~10^8 steps per call (lazy re-parsing is quadratic
+		// in the depth): keep such histories short so that they stay rare in time too
+		if len(b) > 3000 && n > 4 {
+			n = 4
+		}
+	}
 	var calls []Call
 	var decoded []int
 	for i := 0; i < n; i++ {
